@@ -12,11 +12,12 @@
    What is proved here.  `_partial` marks theorems whose histories are restricted
    to update / delete / get / hash in any order (Hash() anywhere in between, so
    the hasher's reuse of cached hashes is covered) on a trie held in memory;
-   commit + reopen (C10_commit_reopen_partial) and Prove-then-Verify
-   (C10_prove_then_verify_partial) are proved for a trie without cached hashes
-   (one commit); repeated commits with cache-generation unloading (SetCacheLimit)
-   and updates on a lazily loaded trie are tied to the code by the correspondence
-   runs and direct oracles of harness/cmd/c10 only.  Full: the specification root is a
+   C10_lazy_history_partial covers the general in-memory form (hash nodes,
+   cached hashes, dirty flags, cache generations): histories of update / delete /
+   get / Commit / SetCacheLimit with any number of commits; reopen is a step
+   theorem; Prove-then-Verify is proved for a trie without cached hashes.  Hash()
+   without database and Prove on a partly unloaded trie are tied to the code by
+   the correspondence runs and direct oracles of harness/cmd/c10 only.  Full: the specification root is a
    function of the finite map; decodeNode / VerifyProof are total (no panic);
    VerifyProof is sound for every set of proof nodes under collision freedom of
    H on the strings compared.  Refuted: absence in the EMPTY trie has no
@@ -34,7 +35,8 @@
    gives (get = map lookup, hash = specification root of the content). *)
 From Coq Require Import Permutation.
 From AQ Require Import Lib.Bytes Lib.Keccak Rlp.RlpSpec Trie.MptSpec Trie.TrieModel Trie.TrieInv
-  Trie.MptSpecProofs Trie.TrieCodecDefs Trie.TrieFlagsProofs Trie.TrieTheorems Trie.TrieReopenProofs Trie.TrieProveProofs.
+  Trie.MptSpecProofs Trie.TrieCodecDefs Trie.TrieFlagsProofs Trie.TrieTheorems Trie.TrieReopenProofs Trie.TrieProveProofs
+  Trie.TrieLazyDefs Trie.TrieFitsProofs Trie.TrieLazyTheorems.
 Local Open Scope N_scope.
 
 (* TryGet returns exactly the content and leaves the trie unchanged *)
@@ -174,6 +176,49 @@ Theorem C10_prove_then_verify_partial : forall H : bytes -> bytes,
 Proof. exact prove_verify_closed. Qed.
 Print Assumptions C10_prove_then_verify_partial.
 
+(* The general case: the trie as the Go code holds it — partly unloaded to hash
+   nodes whose encodings are in the node database, with cached hashes, dirty
+   flags and cache generations.  Histories of update / delete / get / Commit /
+   SetCacheLimit in any order from the empty trie, ANY number of commits (old
+   generations are unloaded to hash nodes and re-read through the database,
+   updates and deletes run on the lazily loaded trie): every operation
+   succeeds; every get returns what the denoted map says; every Commit returns
+   the specification root of the content at that point; the final trie
+   represents the denoted map and the database stays sound.
+   `rep H d mp t`: exists a canonical trie m denoting the nibble-key map mp such
+   that t represents m over d (TrieLazyDefs.lazy_trie);  `lazy_ops`: side
+   conditions (Commit: RLP sizes fit 64 bits, see C10_sizes_fit; SetCacheLimit:
+   uint16);  `lazy_trace`: the expected observations.  `_partial`: Hash() without
+   database on a partly unloaded trie, Prove on it, and reopen inside the history
+   (see the step theorem below) are not in this theorem. *)
+Theorem C10_lazy_history_partial : forall H : bytes -> bytes,
+  (forall x, length (H x) = 32%nat) ->
+  (forall m1 m2, canon m1 = true -> canon m2 = true -> H (spec_enc H m1) = H (spec_enc H m2) ->
+                 spec_enc H m1 = spec_enc H m2) ->
+  forall ops, lazy_ops H (fun _ => None) ops ->
+  exists s' obl, run_ops H init_state ops = (s', obl) /\
+    rep H (sdb s') (fold_left lmap ops (fun _ => None)) (strie s') /\ db_sound H (sdb s') /\
+    lazy_trace H (fun _ => None) ops obl.
+Proof. exact lazy_history_empty. Qed.
+Print Assumptions C10_lazy_history_partial.
+
+(* reopening a committed root, over the database of the commit or any later one *)
+Theorem C10_reopen_step_partial : forall H : bytes -> bytes,
+  (forall x, length (H x) = 32%nat) ->
+  forall d d' m mp, denotes m mp -> avail H d m ->
+  (forall m0, canon m0 = true -> stored H d m0 -> stored H d' m0) ->
+  mpt_root_hex H (content_of m) <> zero_hash -> mpt_root_hex H (content_of m) <> empty_root H ->
+  exists t, trie_new H (mpt_root_hex H (content_of m)) d' = Ok t /\ rep H d' mp t.
+Proof. exact reopen_step. Qed.
+Print Assumptions C10_reopen_step_partial.
+
+(* the size premise (all_fits) is a derived fact for contents below 4 GiB (full) *)
+Theorem C10_sizes_fit : forall H : bytes -> bytes,
+  (forall x, length (H x) = 32%nat) ->
+  forall m, canon_root m = true -> content_size (content_of m) < 2 ^ 32 -> all_fits H m.
+Proof. exact fits_of_size. Qed.
+Print Assumptions C10_sizes_fit.
+
 (* the premise on H is met by the Gallina Keccak-256 the executable model uses *)
 Theorem C10_keccak_instance : forall ops, forallb plain_op ops = true ->
   exists s' obl, run_ops keccak256 init_state ops = (s', obl) /\ warm_trie keccak256 (strie s') /\ sdb s' = [] /\
@@ -280,3 +325,14 @@ Example C10_example_commit_reopen_prove :
   | _ => false
   end = true.
 Proof. vm_compute. reflexivity. Qed.
+
+(* non-vacuity of C10_lazy_history_partial: a history with a Commit (on the empty
+   map), updates, a delete, gets and a cache-limit change meets `lazy_ops` *)
+Example C10_example_lazy_ops :
+  lazy_ops keccak256 (fun _ => None)
+    [OpCommit; OpLimit 1; OpUpdate [x01; x02] [x03]; OpUpdate [x01] [x04; x05]; OpGet [x01];
+     OpDelete [x01; x02]; OpGet [x01; x02]].
+Proof.
+  cbn [lazy_ops lazy_op]. repeat split; try reflexivity.
+  exact (fits_map_empty keccak256 keccak256_length).
+Qed.
